@@ -47,7 +47,7 @@ func init() {
 		Subs: []*run.Sub{
 			{Name: "structured", N: big(120_000, 6_000_000), Run: c11Structured,
 				Rule: "hand-assembled streams over every opcode, operand form, gradient-encoding colours and metadata variants (valid and invalid)",
-				Min:  map[string]int64{"accepted": 20000, "rejected": 5000, "lines_checked": 500000, "gradient_colors": 100, "nonsensical_colors": 100, "blend_colors": 1000, "implicit_lines": 10000, "palette_lines": 1000}},
+				Min:  map[string]int64{"accepted": 20000, "rejected": 5000, "lines_checked": 500000, "gradient_colors": 100, "nonsensical_colors": 100, "blend_colors": 1000, "implicit_lines": 10000, "palette_lines": 1000, "listings_held_across_a_later_call": 10000}},
 			{Name: "corpus", N: big(120_000, 5_000_000), Run: c11Corpus,
 				Rule: "corpus files intact and mutated",
 				Min:  map[string]int64{"accepted": 20000, "rejected": 5000}},
@@ -536,6 +536,23 @@ func checkListing(c *run.Ctx, b []byte, lst []byte, ops []rec.Op) (sig, msg stri
 	return "", ""
 }
 
+// c11Other is a small valid graphic (viewBox chunk, a colour, a selector, one
+// path) disassembled right after the case's input.
+var c11Other = []byte{0x89, 0x49, 0x56, 0x47, 0x02, 0x0a, 0x00, 0x50, 0x50, 0xb0, 0xb0, 0x81, 0x7c, 0x03, 0xc0, 0x70, 0x70, 0x21, 0x90, 0x70, 0x90, 0x90, 0xe1}
+
+var c11OtherLst []byte
+
+func c11OtherListing() []byte {
+	if c11OtherLst == nil {
+		l, err := decode.Disassemble(c11Other)
+		if err != nil {
+			panic("c11Other is not a valid graphic: " + err.Error())
+		}
+		c11OtherLst = append([]byte(nil), l...)
+	}
+	return c11OtherLst
+}
+
 func c11Judge(c *run.Ctx, b []byte, family string) {
 	c.Input(b)
 	var ops []rec.Op
@@ -567,6 +584,24 @@ func c11Judge(c *run.Ctx, b []byte, family string) {
 		return
 	}
 	c.Count("accepted", 1)
+	// The listing belongs to the caller: a later Disassemble of another input
+	// must not change it (a recycled output buffer would).
+	if len(b)%2 == 0 {
+		held := append([]byte(nil), lst...)
+		var lst2 []byte
+		if !c.Guard("Disassemble (second input)", func() interface{} { return hx(b) }, func() { lst2, _ = decode.Disassemble(c11Other) }) {
+			return
+		}
+		c.Count("listings_held_across_a_later_call", 1)
+		if !bytes.Equal(lst, held) {
+			c.Violate("earlier-listing-changed-by-later-call", map[string]interface{}{"family": family, "input": hx(b), "later_input": hx(c11Other)})
+			return
+		}
+		if !bytes.Equal(lst2, c11OtherListing()) {
+			c.Violate("listing-depends-on-earlier-call", map[string]interface{}{"family": family, "earlier_input": hx(b), "input": hx(c11Other)})
+			return
+		}
+	}
 	if sig, msg := checkListing(c, b, lst, ops); sig != "" {
 		c.Violate(sig, map[string]interface{}{"family": family, "input": hx(b), "what": msg})
 	}
